@@ -1,0 +1,22 @@
+//go:build verif
+
+// Contracts for the configuration package, read by /verif/bin/gocv. Comment-only.
+package config
+
+// C18: every flag registered by AddFlags / AddGlobalFlags names, after the "rollkit." prefix is
+// stripped (as bindFlags and LoadFromViper do), exactly one option of Config as the decoder sees
+// it, with a matching kind; every option is written to the file under the key it is read from.
+// The options are discovered from the type at check time, so added fields and flags are included.
+// Exempt: --home (RootDir is deliberately outside the file) and the signer passphrase, which is
+// read from the flag directly and never stored in the configuration.
+//@ flagmap Config in AddFlags, AddGlobalFlags strip "rollkit." exempt home, rollkit.signer.passphrase property C18
+
+//@ func (d DurationWrapper) MarshalText() (bz, err)
+//@   property C18
+//@   nopanic
+//@   ensures [total] err == nil
+
+//@ func (cfg *InstrumentationConfig) ValidateBasic() (err)
+//@   property C18
+//@   nopanic
+//@   ensures [bounds] err == nil <==> cfg.MaxOpenConnections >= 0
